@@ -323,8 +323,8 @@ class SimFS:
             raise _err(errno.ENOENT, src, dst)
         if node.kind == "d":
             a, b = posixpath.normpath(src), posixpath.normpath(dst)
-            if b.startswith(a + "/"):
-                raise _err(errno.EINVAL, src, dst)
+            if b.startswith(a + "/") or self._dir_contains(node, dp):
+                raise _err(errno.EINVAL, src, dst)  # a directory cannot be moved into itself (also not via a link)
         old = dp.children.get(dn)
         if old is node:
             return
@@ -353,6 +353,19 @@ class SimFS:
         sp.mtime = sp.ctime = now
         dp.mtime = dp.ctime = now
         self.mutations += 1
+
+    def _dir_contains(self, top, wanted):
+        if top is wanted:
+            return True
+        todo = [top]
+        while todo:
+            n = todo.pop()
+            for c in n.children.values():
+                if c is wanted:
+                    return True
+                if c.kind == "d":
+                    todo.append(c)
+        return False
 
     def link(self, src, dst):
         self.hook("link", src, mut=True)
@@ -406,7 +419,7 @@ class SimFS:
         self.mutations += 1
 
     # --------------------------------------------------------------- open files
-    def _open(self, path, readable, writable, append, create, excl, trunc, mode=0o666, kind="open"):
+    def _open(self, path, readable, writable, append, create, excl, trunc, mode=0o666, kind="open", allow_dir=False):
         self.hook(kind, path, mut=(create or trunc))
         if self.fd_limit is not None and len(self.open_files) >= self.fd_limit:
             raise _err(errno.EMFILE, path)
@@ -428,9 +441,13 @@ class SimFS:
             if create and excl:
                 raise _err(errno.EEXIST, path)
             if node.kind == "d":
-                if writable:
+                if writable or not allow_dir:
                     raise _err(errno.EISDIR, path)
-                raise _err(errno.EISDIR, path)
+                # os.open(directory, O_RDONLY): legal (used to fsync a directory after a rename); reading fails
+                of = OpenFile(node, False, False, False, posixpath.normpath(path), self.hook.owner())
+                node.opens += 1
+                self.open_files.append(of)
+                return of
             if trunc and writable:
                 if len(node.data):
                     del node.data[:]
@@ -568,7 +585,7 @@ class SimFS:
         readable = acc in (os.O_RDONLY, os.O_RDWR)
         writable = acc in (os.O_WRONLY, os.O_RDWR)
         of = self._open(path, readable, writable, bool(flags & os.O_APPEND), bool(flags & os.O_CREAT),
-                        bool(flags & os.O_EXCL), bool(flags & os.O_TRUNC), mode, kind="open")
+                        bool(flags & os.O_EXCL), bool(flags & os.O_TRUNC), mode, kind="open", allow_dir=True)
         fd = self._next_fd
         self._next_fd += 1
         self.fds[fd] = of
